@@ -8,6 +8,7 @@ from .. import fields, paths
 from ..core import FUNC, call_attr, calls_in, const, dotted, is_const, kwarg, norm, slice_parts, text, walk_local
 
 EXPLANATION = [
+    'C10.accessor-contained: in Attribute.read_value/write_value every call of an application value accessor (and the await of its result) is inside try/except Exception that re-raises as ATT_Error, which is what makes "handlers only see ATT_Error" true for C10.once.',
     'C10.mtu-agreement: after an MTU exchange the server adopts min(value it announced, client_rx_mtu) and the client min(value it sent, server_rx_mtu): the same number on both sides, which every budget rule below relies on.',
     'C10.classify: ATT_REQUESTS/ATT_RESPONSES are paired (response opcode = request + 1), commands carry bit 6 and are not requests; '
     'the dispatcher sends one Error Response for requests without a handler and nothing for other PDUs.',
@@ -448,7 +449,41 @@ def mtu_agreement(ctx):
     R.check(ok, rule, 'bumble.gatt_client.Client.request_mtu | final MTU', f'min({sent}, response.server_rx_mtu)', 'the client does not adopt min(requested, server_rx_mtu)', p.loc(cli))
 
 
+
+def accessor_contained(ctx):
+    """What an application's value accessor raises reaches the request handlers only as ATT_Error."""
+    R, p = ctx.r, ctx.p
+    rule = 'C10.accessor-contained'
+    n = 0
+    for mname in ('read_value', 'write_value'):
+        m = p.find(f'bumble.att.Attribute.{mname}')
+        if m is None:
+            R.bad(rule, f'bumble.att.Attribute.{mname}', 'anchor missing')
+            continue
+        calls = [c for c in calls_in(m) if dotted(c.func) in ('self.value.read', 'self.value.write')]
+        for i, c in enumerate(calls):
+            n += 1
+            ok = False
+            a, prev = getattr(c, '_parent', None), c
+            while a is not None and a is not m:
+                if isinstance(a, ast.Try) and any(prev is s_ or any(prev is x for x in ast.walk(s_)) for s_ in a.body):
+                    for h in a.handlers:
+                        ts = h.type.elts if isinstance(h.type, ast.Tuple) else ([h.type] if h.type is not None else [])
+                        names = {text(t).split('.')[-1] for t in ts} or {'<bare>'}
+                        raises_att = any(isinstance(x, ast.Raise) and x.exc is not None and 'ATT_Error' in norm(x.exc) for x in ast.walk(h))
+                        if names & {'Exception', 'BaseException', '<bare>'} and raises_att:
+                            ok = True
+                    # the awaited result of the accessor is inside the same try
+                    aw = [x for x in ast.walk(a) if isinstance(x, ast.Await)]
+                    ok = ok and all(any(x is y for s_ in a.body for y in ast.walk(s_)) for x in aw)
+                prev, a = a, getattr(a, '_parent', None)
+            R.check(ok, rule, f'bumble.att.Attribute.{mname} | accessor call #{i + 1}', 'inside try/except Exception that re-raises as ATT_Error',
+                    'an exception other than ATT_Error raised by a value accessor escapes the permission gate: the task-wrapped request handler dies without answering (the client times out)', p.loc(c))
+    R.check(n >= 4, rule, 'bumble.att.Attribute | accessor calls', f'{n} accessor calls', f'only {n} accessor calls found')
+
+
 RULES = [
+    ('C10.accessor-contained', accessor_contained),
     ('C10.mtu-agreement', mtu_agreement),
     ('C10.classify', classify),
     ('C10.once', once),
